@@ -164,7 +164,7 @@ pub fn run(prop: &'static str, tier: &str, seed: u64) -> i32 {
                 rep.inconclusive(format!("seed {}: {}", r["seed"], r["inconclusive"]));
             }
             rep.count("frames", r["frames"].as_u64().unwrap_or(0));
-            for k in ["polls", "snapshot_pairs", "live_frames", "overlapping_appends", "window_entered", "window_blocked", "window_hits", "delivered_from_window"] {
+            for k in ["polls", "snapshot_pairs", "live_frames", "overlapping_appends", "window_entered", "window_blocked", "window_hits", "delivered_from_window", "removed_during_scan"] {
                 if let Some(n) = r[k].as_u64() {
                     rep.count(k, n);
                 }
